@@ -8,7 +8,7 @@ python3 - /tmp/metas.$$.json <<'PY'
 import json,sys
 m=json.load(open(sys.argv[1]))['metas']
 pre="Static analysis of the type-checked source (go/types + go/ssa) without executing it. DECIDED on every path of the anchored functions: "
-tech="custom static analysis on go/ssa: canonical value identity (reaching-definition memory model), dominance and must-follow on success paths, normalised guard facts, effect summaries and who-may tables, iteration-completeness of reviewed loops, key-layout extraction, reviewed-reference formula trees, staleness of by-value record copies, error-origin closure, and for every effect of every function in scope the escape edges / dominating facts / argument tuples compared with a table generated from the reviewed tree (X.skips, X.guards, X.args)"
+tech="custom static analysis on go/ssa: canonical value identity (reaching-definition memory model), dominance and must-follow on success paths, normalised guard facts, effect summaries and who-may tables, iteration-completeness of reviewed loops, key-layout extraction, reviewed-reference formula trees, staleness of by-value record copies, error-origin closure, and for every effect of every function in scope the escape edges / dominating facts / argument tuples compared with a table generated from the reviewed tree (X.skips, X.guards, X.args, X.fields)"
 out={}
 for k,v in m.items():
     out[k]={"level":pre+v['explanation']+" NOT DECIDED (numeric/global clauses of the property): "+v['not_decided']+" Level `other`: structural necessary conditions, not a proof of the behavioural statement.",
